@@ -8,7 +8,8 @@ import copy
 import re
 
 from vivarium.library.dict_utils import (
-    deep_merge, deep_merge_multi_update, merge_variable_updates)
+    deep_merge, deep_merge_multi_update, merge_variable_updates,
+    copy_dicts)
 
 
 def get_in(d, path, default=None):
@@ -201,7 +202,7 @@ def inverse_topology(outer, update, topology, inverse=None, multi_updates=True):
                             inverse,
                             inner,
                             lambda current: deep_merge(
-                                current, child_update))
+                                current, copy_dicts(child_update)))
                     else:
                         assoc_path(inverse, inner, child_update)
 
@@ -240,7 +241,8 @@ def inverse_topology(outer, update, topology, inverse=None, multi_updates=True):
                         inverse = update_in(
                             inverse,
                             inner,
-                            lambda current: deep_merge(current, value))
+                            lambda current: deep_merge(
+                                current, copy_dicts(value)))
                 elif multi_updates and inner:
                     # keep every update when several ports or variables
                     # are wired to the same variable
